@@ -25,6 +25,7 @@
 //!           shutpark (Server::shutdown while this accept task is parked between admission and
 //!           registration; it registers afterwards and stays open; ends the case) |
 //!           rtdrop (the runtime is dropped with everything still open = task abort; ends the case)
+//! payloads starting with `pipe ` are accept-pipeline cases: see `../c07pipe.rs`.
 //! output: `<per on_connect call, in call order: allow:<#on_disconnect> | deny:<#on_disconnect>> | held:<spec indices registered at the end of the script>`
 //!   counts are taken after the server was shut down AND the runtime dropped, i.e. after everything
 //!   that can ever call `on_disconnect` has run.
@@ -75,7 +76,13 @@ struct Arrival {
 struct Gate {
     log: Mutex<Vec<Cb>>,
     arrivals: Mutex<Vec<Arrival>>,
+    /// accept-pipeline cases (`pipe …`): the policy is a function of the request, nothing is gated
+    pipe: Mutex<Option<pipe::Policy>>,
+    pipe_seen: Mutex<Vec<pipe::Seen>>,
 }
+
+#[path = "../c07pipe.rs"]
+mod pipe;
 
 #[derive(Clone)]
 struct GateAccess(Arc<Gate>);
@@ -88,6 +95,9 @@ impl std::fmt::Debug for GateAccess {
 
 impl AccessControl for GateAccess {
     async fn on_connect(&self, request: &ClientRequest) -> Access {
+        if let Some(access) = pipe::on_connect(&self.0, request) {
+            return access;
+        }
         let (tx, rx) = oneshot::channel();
         let cid = request.connection_id();
         self.0.log.lock().unwrap().push(Cb::Connect(request.endpoint_id(), cid));
@@ -702,9 +712,15 @@ impl Prop for C07 {
         // (4) server shut down while an accept task is parked between admission and registration
         out.push("fwd;0 allow - fin hold;1 allow - fin shutpark".into());
         out.push("rev;0 allow - fin hold;0 allow - fin shutpark".into());
-        // (5) random lists of connections
+        // (4b) the accept pipeline end to end (`pipe …`, see ../c07pipe.rs)
+        pipe::fixed_cases(out);
+        // (5) random lists of connections, and random pipeline requests
         let max = if tier == Tier::Thorough { 6 } else { 4 };
         while out.len() < n {
+            if rng.chance(2, 5) {
+                out.push(pipe::gen_case(rng));
+                continue;
+            }
             let k = rng.range(1, max) as usize;
             let mut specs = Vec::new();
             for i in 0..k {
@@ -726,6 +742,12 @@ impl Prop for C07 {
     }
 
     fn execute(&mut self, payload: &str) -> Exec {
+        if payload.starts_with("pipe ") {
+            let rt = tokio::runtime::Builder::new_current_thread().enable_all().build().expect("runtime");
+            let ex = rt.block_on(pipe::run_case(payload));
+            rt.shutdown_timeout(Duration::from_millis(200));
+            return ex;
+        }
         let Some((fwd, specs)) = parse(payload) else {
             return Exec::new("bad-input").tag("bad-input");
         };
